@@ -54,6 +54,7 @@ class Node(node_abi.Mixin):
         sig("aws_fm_do", c_int, c_long, c_int, c_long, POINTER(c_long))
         sig("aws_fm_call", c_int, c_long, c_char_p)
         sig("aws_fm_flags", c_int, c_long)
+        sig("aws_fm_depth", c_long, c_long)
         sig("aws_fm_state", c_long, c_long, c_char_p, c_long)
         sig("aws_fm_decompiled", c_long, c_long, c_char_p, c_long)
         sig("aws_fm_text", c_long, c_long, c_int, c_char_p, c_long)
@@ -127,6 +128,12 @@ class Node(node_abi.Mixin):
         if err < 0:
             self.raise_last()
         return err
+
+    def fm_depth(self, h):
+        d = self.lib.aws_fm_depth(h)
+        if d < 0:
+            self.raise_last()
+        return d
 
     def fm_flags(self, h):
         f = self.lib.aws_fm_flags(h)
